@@ -170,13 +170,13 @@ Fixpoint rac_classes (cfg : bytes -> cval) (fuel : nat) (s : bytes) : list nat :
     end
   end.
 
-(* for every e2e case that violates the oracle: cid * 10 + class, one entry per distinct class used *)
+(* for every e2e case that violates the oracle: the pair  cid, class  (flattened), one per distinct class used *)
 Definition kf_codes (cs : list case) : list nat :=
   flat_map (fun c =>
     match ckind c with
     | 1%nat =>
       if oracle_case c then []
-      else map (fun k => (cid c * 10 + k)%nat)
+      else flat_map (fun k => [cid c; k])
                (nodup Nat.eq_dec (filter (fun k => negb (Nat.eqb k 0)) (rac_classes (cfg_of (ccfg c)) repo_budget (cin c))))
     | _ => []
     end) cs.
